@@ -1,10 +1,10 @@
 package main
 
 import (
-	"sort"
 	"fmt"
 	"go/token"
 	"go/types"
+	"sort"
 
 	"golang.org/x/tools/go/ssa"
 )
@@ -1167,7 +1167,6 @@ func loopInvariantValue(v ssa.Value) bool {
 	}
 	return false
 }
-
 
 func sortedFns(m map[*ssa.Function]bool) []*ssa.Function {
 	var out []*ssa.Function
